@@ -209,16 +209,23 @@ def worker(job):
         da, ea, eb = deep(a), ev(a), ev(b)
         op = rnd.choice(["+=", "-=", "*="])
         acc = a
-        if op == "+=":
-            acc += b
-            want = (ea + eb) % p
-        elif op == "-=":
-            acc -= b
-            want = (ea - eb) % p
-        else:
-            k = rnd.choice([0, 1, -1, 7, p + 3, -(1 << 300)])
-            acc *= k
-            want = ea * k % p
+        try:
+            if op == "+=":
+                acc += b
+                want = (ea + eb) % p
+            elif op == "-=":
+                acc -= b
+                want = (ea - eb) % p
+            else:
+                k = rnd.choice([0, 1, -1, 7, p + 3, -(1 << 300)])
+                acc *= k
+                want = ea * k % p
+        except AlgebraBroken:
+            raise
+        except Exception as e:  # noqa
+            R.case(cell="%s|augmented %s" % (be, op), key=(be, op, n))
+            R.violation("algebra-operation-raised:" + op, "`acc %s b` on linear combinations produced by the backend raised %s: %s" % (op, type(e).__name__, str(e)[:120]), backend=be)
+            continue
         R.count("augmented_ops_checked")
         R.case(cell="%s|augmented %s" % (be, op), key=(be, op, da[:4], n))
         if deep(a) != da:
